@@ -2,7 +2,7 @@ SPECIFICATION Spec
 CONSTANTS
   Ids = {A, B}
   MaxKeys = 2
-  Depth = 6
+  Depth = 7
   MaxLevel = 0
   MaxFaults = 1
   DevScope = FALSE
